@@ -692,3 +692,22 @@ pub fn x_across_unique<'a>(a: S<'a, u32>) {
         .all_ticks()
         .embedded_output("out");
 }
+
+// ------------------------------------------------------------------ round 3: ChainFirst, ReduceKeyedWatermark
+
+/// Optional::or inside a tick (HydroNode::ChainFirst -> chain_first_n(1))
+pub fn t_or<'a>(a: S<'a, u32>, b: S<'a, u32>) {
+    let (ba, bb) = b2(a, b);
+    ba.max().or(bb.min()).all_ticks().embedded_output("out");
+}
+
+/// KeyedStream::reduce_watermark inside a tick (HydroNode::ReduceKeyedWatermark)
+pub fn t_reduce_watermark<'a>(a: S<'a, KV>, b: S<'a, u32>) {
+    let (ba, bb) = b2(a, b);
+    ba.into_keyed()
+        .reduce_watermark(bb.max(), q!(|acc, v| *acc = (*acc * 3 + v) % 1009))
+        .entries()
+        .all_ticks()
+        .assume_ordering::<TotalOrder>(nondet!(/** observation only */))
+        .embedded_output("out");
+}
